@@ -82,7 +82,7 @@ def oracle_case(case, obs):
                 what = "copy.deepcopy of env[%d] is not equal to its original" % op["arg"]
             elif not ex.get("unshared", True):
                 what = "copy.deepcopy of env[%d] shares mutable state with it at %s" % (op["arg"], ex.get("common"))
-        if op["op"] in REFUSAL_OPS and is_public_name(op.get("name", "x")):
+        if op["op"] in REFUSAL_OPS and ex.get("is_prop"):
             if ex.get("refused") is False:
                 what = "%s of property %r on a library object was not refused" % (op["op"], op.get("name"))
             elif ex.get("attr_same") is False:
